@@ -218,7 +218,7 @@ class Ctx:
     def inline(self, depth: int = 0) -> Tuple[str, str]:
         """One inline construct (surrounded by blanks by the caller)."""
         rng = self.rng
-        k = rng.randrange(17 if depth == 0 else 6)
+        k = rng.randrange(19 if depth == 0 else 6)
         if k <= 2:
             return self.prose_run("text")
         if k == 3:
@@ -263,6 +263,13 @@ class Ctx:
             return f"*outer **{a}** end*", f"*outer **{b}** end*"
         if k == 13:
             return "hard  \nbreak", "hard  \nbreak"
+        if k >= 17:
+            # an opening brace BEFORE a code span / inline HTML tag / autolink / backslash escape whose closing brace
+            # lies inside (or after) that construct: the tighter construct wins, the braces are ordinary characters
+            self.doc.tags.append("brace-overlap")
+            x = rng.choice(["{2 `x} y`", "{1/2 `code}` z", "{<b>} bold</b>", "{see <http://x/}> there", "{3 <span title=\"}\">t</span>",
+                            "{2 \\} x}", "{a \\{ 4}", "{5 `}`", "{1 <i>}</i>", "{7 <http://example.com/a}b> c}"])
+            return x, x
         if k == 16:
             a, b = self.brace(False, "image-alt", alt=True)
             form = rng.randrange(3)
@@ -378,7 +385,7 @@ class RecipeNS:
         self.used: List[str] = []
 
     def ingredient(self, rng: random.Random) -> str:
-        q = rng.choice(["1", "2", "1/2", "1 1/2", "0.5", "3", "200", ""])
+        q = rng.choice(["1", "2", "1/2", "1 1/2", "0.5", "3", "200", "", "1/3", "2.0", "0.25", "1/4"])
         ing = rng.choice(INGREDIENTS)
         if q == "":
             return ing
